@@ -142,9 +142,25 @@ def law_test(cfg, seed, k=2, chains=40000):
     return float(np.abs(emp - want).max()), float(eps)
 
 
+def sample_twice(seed=0):
+    """Two successive sample() calls from the same start state use fresh randomness (a continued chain would otherwise
+    not follow the powers of the kernel): with 200 chains of 3 sites the two results coincide with probability < 1e-30."""
+    fails = []
+    for kind in ("positive", "complex", "mixed"):
+        st = C.make_state(kind, 3, 2, 2)
+        torch.manual_seed(seed)
+        s0 = torch.zeros(200, 3, dtype=torch.double)
+        a = st.sample(k=1, initial_state=s0.clone())
+        b = st.sample(k=1, initial_state=s0.clone())
+        if torch.equal(a, b):
+            fails.append(("two successive sample() calls from the same start state returned identical batches (%s)" % kind, None))
+    return fails
+
+
 def replay(cfg, env):
     if cfg["rbm"] == "sample":
-        return {"reproduced": False, "note": "structural obligation; see detail"}
+        f = sample_twice()
+        return {"reproduced": bool(f), "failed_clauses": [(a, str(b)) for a, b in f[:3]], "cfg": cfg}
     fails = []
     for s in range(3):
         fails, _ = native_check(cfg, env if s == 0 else None, s)
@@ -185,6 +201,10 @@ def bounded(tier, seed):
             n += 1
             if dev > eps:
                 bad.append((c, [("empirical %d-step law deviates from K^k beyond the Hoeffding bound" % k, dev)]))
+    f = sample_twice(seed)
+    n += 1
+    if f:
+        bad.append(({"sample": "two successive calls"}, f[:2]))
     return {"driver": "drivers/C05.native_check + law_test", "label": "bounded", "evaluations": n, "failures": len(bad),
             "bound": "float64; %d architectures; empirical k-step law (k=1,3) from one start state vs K^k with a 1e-9 Hoeffding bound" % len(cfgs),
             "law_tests": laws, "first_failures": bad[:3]}
